@@ -97,7 +97,12 @@ func init() {
 			r.call(hop("CamelCase", "", nil, bs(s)))
 			r.call(hop("SnakeKebab", "", nil, bs(s)))
 		}
-		words := []string{"foo", "Bar", "fooBar", "FOO", "x1", "a", "HTTPServer", "v2Beta"}
+		// single words with every pattern of lower/upper/digit runs (camel humps, acronyms inside a word)
+		for _, s := range append(runeStrings([]string{"a", "B"}, 8), runeStrings([]string{"a", "B", "1"}, 6)...) {
+			r.call(hop("CamelCase", "", nil, bs(s)))
+			r.call(hop("SnakeKebab", "", nil, bs(s)))
+		}
+		words := []string{"foo", "Bar", "fooBar", "FOO", "x1", "a", "HTTPServer", "v2Beta", "fooBARbazQux", "aBCdEFg"}
 		seps := []string{" ", "-", "_", "&", "  ", "-_", " & "}
 		for i := 0; i < 1500; i++ {
 			s := ""
